@@ -87,9 +87,14 @@ class ModelTree:
             otherwise the exact midpoint Fraction is used.
     """
 
-    def __init__(self, points, dim, count_ubound, shape, mids=None):
+    def __init__(self, points, dim, count_ubound, shape, mids=None, mid_ok=None):
+        """mid_ok : optional predicate (mid, lo, hi, exact) -> bool deciding whether an observed split value
+        counts as "the midpoint" of the node's range [lo, hi] (Fractions); families at unusual scales / dtypes
+        pass a tolerance that reflects the float error of a correct implementation there.  Default: inside
+        [lo, hi] and within relative 1e-9 of the exact midpoint."""
         self.dim = dim
         self.ub = count_ubound
+        self.mid_ok = mid_ok
         self.points = [tuple(p) for p in points]
         self.splits = {}  # path -> (axis, mid)
         self.exact_mid = {}  # path -> Fraction
@@ -118,7 +123,11 @@ class ModelTree:
         self.exact_mid[path] = exact
         if mids is not None:
             mid = mids[path]
-            if mid is None or not (lo <= Fraction(mid) <= hi) or not _close_frac(mid, exact):
+            if mid is not None and self.mid_ok is not None:
+                good = bool(self.mid_ok(mid, lo, hi, exact))
+            else:
+                good = mid is not None and (lo <= Fraction(mid) <= hi) and _close_frac(mid, exact)
+            if not good:
                 raise ShapeError(
                     "midpoint",
                     "node %r (depth %d, axis %d) splits at %r, midpoint of its points' range [%r, %r] is %r"
@@ -167,6 +176,10 @@ class ModelTree:
             tuple(sorted((p, a, m) for p, (a, m) in self.splits.items())),
             tuple(self.ref[p] for p in self.nodes),
         )
+
+    def __deepcopy__(self, memo):
+        # never mutated after construction (route_counts / leaf_counts build new dicts): snapshots share it
+        return self
 
 
 def _close_frac(x, exact, rel=1e-9):
@@ -250,6 +263,10 @@ class _Reference:
         t = self.tree.leaf_counts(test_node_counts)
         d = kl_counts(self.ref_leaf, t)
         return d, _tie_is_exact(d, self.crit, self.ref_leaf, t, self.wit)
+
+    def __deepcopy__(self, memo):
+        # immutable after construction: the per-step model copies of lockstep / the explorer share it
+        return self
 
 
 class KdqBatchModel:
